@@ -68,7 +68,7 @@ def main():
                     for op in ("and", "or"):
                         ex.append({"t": op, "l": a, "r": b2})
                 ex.append({"t": "not", "e": a})
-            vlib.run_machine(chk, "c03-machine", data["docs"], data["cfgs"], cfgsel, ex)
+            vlib.run_machine(chk, "c03-machine", data["docs"], data["cfgs"], cfgsel, ex, worlds=wn.split(","))
     # the tables' algebra (double negation, De Morgan, short circuit, error propagation, associativity) proved with TLAPS
     vlib.run_tlaps(chk, "LogicProof")
     chk.cov["distinct_nontrivial"] = sum(cells.values())
